@@ -35,9 +35,12 @@ function genInput (rng, url) {
 }
 
 function genOriginalMap (rng, inputLines) {
-  const nSources = rng.range(1, 3)
+  let nSources = rng.range(1, 3)
   const sources = Array.from({ length: nSources }, (_, i) => rng.pick(['orig', 'src/orig', '../lib/orig', 'a b']) + i + '.ts')
   const names = rng.bool(0.6) ? ['alpha', 'beta', 'gamma'].slice(0, rng.range(1, 3)) : []
+  // bundlers that concatenate maps do not de-duplicate: the same string may sit in several slots, and tokens refer to slots
+  if (rng.bool(0.3)) { sources.splice(rng.int(nSources), 0, rng.pick(sources)); nSources++ }
+  if (names.length && rng.bool(0.3)) names.splice(rng.int(names.length), 0, rng.pick(names))
   const tokens = []
   const layout = rng.int(4) // 0 dense, 1 sparse lines, 2 one token per line, 3 very sparse
   for (let line = 0; line < inputLines.length; line++) {
@@ -59,7 +62,7 @@ function genOriginalMap (rng, inputLines) {
   return { map, tokens }
 }
 
-const REF_KINDS = ['inline', 'relative', 'absolute', 'none', 'missing', 'perm', 'dir', 'midread', 'bad-base64', 'bad-json', 'bad-vlq', 'index-map', 'empty-file', 'oversized', 'two-comments', 'block-comment', 'comment-not-last']
+const REF_KINDS = ['inline', 'inline-charset', 'relative', 'absolute', 'none', 'missing', 'perm', 'dir', 'midread', 'bad-base64', 'bad-json', 'bad-vlq', 'index-map', 'empty-file', 'oversized', 'two-comments', 'block-comment', 'comment-not-last']
 
 function genCase (rng, refKind, chain, comments) {
   const file = '/srv/app/dist/gen.js'
@@ -75,6 +78,8 @@ function genCase (rng, refKind, chain, comments) {
   const relPath = '/srv/app/dist/' + relName
   switch (refKind) {
     case 'inline': url = 'data:application/json;base64,' + b64(mapText); trailer = `//# sourceMappingURL=${url}`; break
+    // the data URL form written by babel / convert-source-map / webpack's inline devtool: a charset parameter before the encoding
+    case 'inline-charset': url = 'data:application/json;' + rng.pick(['charset=utf-8', 'charset=UTF-8', 'charset=utf8']) + ';base64,' + b64(mapText); trailer = `//# sourceMappingURL=${url}`; break
     case 'relative': files[relPath] = { content: mapText }; trailer = `//# sourceMappingURL=${url}`; break
     case 'absolute': files[url] = { content: mapText }; trailer = `//# sourceMappingURL=${url}`; break
     case 'none': trailer = ''; usable = false; break
@@ -244,7 +249,7 @@ function check (c, resp, baseline) {
 module.exports = {
   id: 'C10',
   level: 'fault_enumeration',
-  rule: 'every reference kind (inline data URL, relative, absolute, none, missing, permission denied, directory, mid-read failure, invalid base64 / JSON / VLQ, index map, empty file, 3 MB generated map, two comments, block comment, comment not last) x {chain on/off} x {comments on/off} is enumerated per shard against programs whose strings, regexes, templates and other comments look like the sourceMappingURL comment, with random original maps (1-3 sources, names, sourceRoot, sparse lines, tokens without source). Monitors: emitted map == composition of the plain rewrite map (returned by the same call) with the original map, token by token, under both lookup semantics; plain rewrite map when there is no usable map or chaining is off; exactly one decodable trailer as last line; superseded comment removed and every other comment kept when comments are on (differential: the same call on a baseline input whose reference-like comments are defused in place must print the same comments except the one superseded reference); acorn token stream (strings/regexes by value) identical across the four chain/comments settings of the same input. distinct_nontrivial = distinct cases whose emitted map was decided.',
+  rule: 'every reference kind (inline data URL with and without a charset parameter, relative, absolute, none, missing, permission denied, directory, mid-read failure, invalid base64 / JSON / VLQ, index map, empty file, 3 MB generated map, two comments, block comment, comment not last) x {chain on/off} x {comments on/off} is enumerated per shard against programs whose strings, regexes, templates and other comments look like the sourceMappingURL comment, with random original maps (1-4 sources and names with repeated entries, sourceRoot, sparse lines, tokens without source). Monitors: emitted map == composition of the plain rewrite map (returned by the same call) with the original map, token by token, under both lookup semantics; plain rewrite map when there is no usable map or chaining is off; exactly one decodable trailer as last line; superseded comment removed and every other comment kept when comments are on (differential: the same call on a baseline input whose reference-like comments are defused in place must print the same comments except the one superseded reference); acorn token stream (strings/regexes by value) identical across the four chain/comments settings of the same input. distinct_nontrivial = distinct cases whose emitted map was decided.',
   assumptions: ['comments that the printer itself drops or relocates around injected code (it does so with and without a reference comment) are not attributed to this property', 'an oversized but well-formed map may or may not be chained (both accepted), it must not fail', 'a sourceMappingURL comment that is followed by more code may or may not be honoured (statement silent); text safety and the single trailer are still required', 'sourceRoot may be applied by joining with or without a slash'],
   plan (ctx) {
     const rounds = ctx.tier === 'thorough' ? 400 : 48
